@@ -722,6 +722,9 @@ pub fn check_type(
 
         if state.have_examined(&o, &tc) {
             //println!(" skipping examined object check");
+            // a skipped check counts as passed: do not leave the
+            // error of a previously failed alternative pending.
+            result = None;
             continue
         }
         state.examine(&o, &tc);
